@@ -236,6 +236,7 @@ def run(prop, tier, replay=None, nproc=None, do_build=True):
         "bound_completed": getattr(mod, "bound_text", lambda t: t)(tier) if exhaustive else "incomplete: %d/%d shards" % (done, len(shards)),
         "violations_total": nviol_total,
         "violation_signatures": len(by_sig),
+        "violation_signature_list": [{"sig": k, "cases": len(v), "known": (match_known(known, k) or {}).get("id")} for k, v in sorted(by_sig.items())][:200],
         "known_findings_hit": {k: n for k, (e, n) in known_hits.items()},
         "build": git_rev(),
     }
